@@ -413,6 +413,10 @@ bool Instance::configure_tx_txin() {
                 return false;
             }
             // pushval = HASH160(scriptSig)
+            if (pushval.size() != 20) {
+                fprintf(stderr, "unknown/non-standard script pub key (expected a 20 byte hash after OP_HASH160, got %zu bytes)\n", pushval.size());
+                return false;
+            }
             hashsrc.do_hash160();
             if (uint160(hashsrc.data_value()) != uint160(pushval)) {
                 fprintf(stderr, "scriptSig hash does not match the script pub key hash:\n"
